@@ -1046,3 +1046,19 @@ Proof.
     destruct (Nat.lt_ge_cases b 2); [exists (seq 0 2)|exists (seq 2 2)]; (split; [cbn; tauto|apply in_seq; lia]). }
   split; [repeat constructor|]. vm_compute. auto.
 Qed.
+
+(** ** an UpdateLUNMap that gives up (PreloadLunMap returned an error) *)
+(** the copy is dropped, the live table was never touched: once what the scan had queued has been applied or
+    dropped, the state is again one from which every schedule of [rebuild_converges] may go on -- in
+    particular a second, complete UpdateLUNMap *)
+Lemma inv2_abort : forall K c s, inv2 K c s -> dpend s = [] -> inv2 K c (ulm_abort s).
+Proof.
+  intros K c s I Hp. destruct I as [I_src I_dst I_nf I_nblk I_c I_rel I_head I_live I_user I_keep I_E].
+  constructor; cbn [ulm_abort set_uph src dst spend dpend lowc wired reloaded uph drev]; auto.
+  rewrite Hp in *. destruct I_dst as [A B C M S].
+  constructor; auto. intros f s' l [].
+Qed.
+
+(** nothing that is served changes *)
+Lemma ulm_abort_same : forall s, src (ulm_abort s) = src s /\ dst (ulm_abort s) = dst s /\ dpend (ulm_abort s) = dpend s.
+Proof. intros s. cbn. auto. Qed.
